@@ -133,6 +133,13 @@ class _CallableInstance(object):
         return self._m(*a, **kw)
 
 
+class _FalsyCallable(_CallableInstance):
+    """a callable object whose truth value is False (a container-like solver object that is still empty)"""
+
+    def __len__(self):
+        return 0
+
+
 def as_kind(m, ck):
     """the same caller-supplied method as each kind of Python callable (Dispatch.tla CallableKinds)"""
     import functools
@@ -148,6 +155,8 @@ def as_kind(m, ck):
         return _CallableInstance(m)
     if ck == "boundmethod":
         return _CallableInstance(m).run
+    if ck == "falsyinstance":
+        return _FalsyCallable(m)
     raise ValueError(ck)
 
 
@@ -452,21 +461,24 @@ def who_runs_where(ctx, fx):
 def run(ctx):
     thorough = ctx.tier == "thorough"
     allf = RawTla("[g \\in Functionals |-> TRUE]")
-    t, cf = tlcmod.gen_mc(ctx.work, "Dispatch", "MC_Dispatch", dict(LowerFirst=allf, AnyCallable=True, DefaultTakesOptions=allf),
+    t, cf = tlcmod.gen_mc(ctx.work, "Dispatch", "MC_Dispatch", dict(LowerFirst=allf, AnyCallable=True, DefaultTakesOptions=allf, NoneByIdentity=True),
                           invariants=["CaseInsensitive", "UnknownRejected", "CallableAccepted", "DefaultIsBuiltIn", "OptionsDelivered"])
     dot = os.path.join(ctx.work, "disp.dot")
     ctx.model_check(t, cf, workers=4, dump_dot=dot, label="dispatch table", timeout=300)
     nodes, inits, edges = tlcmod.parse_dot(dot)
     os.remove(dot)
-    t2, cf2 = tlcmod.gen_mc(ctx.work, "Dispatch", "MC_Dispatch_dev", dict(LowerFirst=RawTla('[g \\in Functionals |-> g \\notin {"solve", "minimize"}]'), AnyCallable=True, DefaultTakesOptions=allf),
+    t2, cf2 = tlcmod.gen_mc(ctx.work, "Dispatch", "MC_Dispatch_dev", dict(LowerFirst=RawTla('[g \\in Functionals |-> g \\notin {"solve", "minimize"}]'), AnyCallable=True, DefaultTakesOptions=allf, NoneByIdentity=True),
                             invariants=["CaseInsensitive", "UnknownRejected", "CallableAccepted", "DefaultIsBuiltIn", "OptionsDelivered"])
     ctx.expect_violation(t2, cf2, inv="CaseInsensitive", label="deviation LowerFirst", workers=4, timeout=300)
-    t3, cf3 = tlcmod.gen_mc(ctx.work, "Dispatch", "MC_Dispatch_dev_callable", dict(LowerFirst=allf, AnyCallable=False, DefaultTakesOptions=allf),
+    t3, cf3 = tlcmod.gen_mc(ctx.work, "Dispatch", "MC_Dispatch_dev_callable", dict(LowerFirst=allf, AnyCallable=False, DefaultTakesOptions=allf, NoneByIdentity=True),
                             invariants=["CaseInsensitive", "UnknownRejected", "CallableAccepted", "DefaultIsBuiltIn", "OptionsDelivered"])
     ctx.expect_violation(t3, cf3, inv="CallableAccepted", label="deviation AnyCallable", workers=4, timeout=300)
-    t4, cf4 = tlcmod.gen_mc(ctx.work, "Dispatch", "MC_Dispatch_dev_defopts", dict(LowerFirst=allf, AnyCallable=True, DefaultTakesOptions=RawTla('[g \\in Functionals |-> g # "squad"]')),
+    t4, cf4 = tlcmod.gen_mc(ctx.work, "Dispatch", "MC_Dispatch_dev_defopts", dict(LowerFirst=allf, AnyCallable=True, DefaultTakesOptions=RawTla('[g \\in Functionals |-> g # "squad"]'), NoneByIdentity=True),
                             invariants=["CaseInsensitive", "UnknownRejected", "CallableAccepted", "DefaultIsBuiltIn", "OptionsDelivered"])
     ctx.expect_violation(t4, cf4, inv="OptionsDelivered", label="deviation DefaultTakesOptions", workers=4, timeout=300)
+    t5, cf5 = tlcmod.gen_mc(ctx.work, "Dispatch", "MC_Dispatch_dev_none", dict(LowerFirst=allf, AnyCallable=True, DefaultTakesOptions=allf, NoneByIdentity=False),
+                            invariants=["CaseInsensitive", "UnknownRejected", "CallableAccepted", "DefaultIsBuiltIn", "OptionsDelivered"])
+    ctx.expect_violation(t5, cf5, inv="UnknownRejected", label="deviation NoneByIdentity", workers=4, timeout=300)
     fx = fixtures(ctx.seed)
     nrows = 0
     with warnings.catch_warnings():
@@ -484,6 +496,8 @@ def run(ctx):
                 marg, opts = mixed(nm), dict(NEEDS.get((f, nm), {}))
             elif cls == "unknown":
                 marg, opts = "no_such_method", {}
+            elif cls == "emptyname":
+                marg, opts = "", {}
             elif cls == "noncallable":
                 marg, opts = 3.5, {}
             else:
@@ -501,7 +515,7 @@ def run(ctx):
             if outcome == "raise":
                 if got == "ok":
                     why = "accepted silently (the specification rejects it)"
-                elif got.startswith("raise-other") and cls == "unknown":
+                elif got.startswith("raise-other") and cls in ("unknown", "emptyname"):
                     why = "failed with %s instead of rejecting the method name" % got
             else:
                 if got == "raise-unknown":
